@@ -85,8 +85,7 @@ func stressChild(args []string) int {
 	startHeartbeat()
 	rng := &xs{cfg.Seed*0x9E3779B97F4A7C15 + 1}
 	for round = 0; round < cfg.Rounds; round++ {
-		ch := channel.NewChannel()
-		ch.Construct(nil, data.NewIntValue(cfg.Cap))
+		ch := newSchan(cfg.Cap)
 		var closeReturned atomic.Bool
 		sendOK := make([][]bool, cfg.P)
 		recvd := make([][]int, cfg.C)
